@@ -25,42 +25,42 @@ def claim(pid, category, technique, text, note, ref):
 
 
 claim("C06", "translation_validation",
-      "independent LALR(1) construction from feel.y compared cell-by-cell with the committed tables; precedence-conflict cells judged against the FEEL specification's binding levels; HIR rule->action->AST-node table extraction; guard-exactness rule on the driver's packed-table accesses (MIR facts); decision regions of the driver evaluated on representative table values; mode-flag reset rule for the lexer",
-      "Static translation validation of a generated artefact: every (state, look-ahead) action and every goto of the committed tables is compared with an independently constructed LALR(1) automaton of feel.y (all 282 states, ~17k cells, exhaustive), every precedence-resolved conflict is judged against the specification's operator levels, token numbering and the rule->action->AstNode mapping (incl. operand order) are extracted from the type-checked HIR. The driver itself is checked where it decides which table cell is consulted: at all four accesses to the packed tables the dominating comparisons must impose exactly bison's guard 0 <= index <= YY_LAST (a narrower guard silently drops cells); the comparisons that turn a table value into shift / reduce / error / default are evaluated on the representative values (YY_TABLE_N_INF, negative, 0, positive; YY_PACT_N_INF) and must give bison's actions, whatever the arrangement of the tests; every lexer mode flag the parser switches on (between, till_in, type_name, unary_tests) is switched off again, unconditionally or in each branch it selects. This is the right level because the parser's tree shape for every operator pair is decided by exactly these finite tables.",
+      "independent LALR(1) construction from feel.y compared cell-by-cell with the committed tables; precedence-conflict cells judged against the FEEL specification's binding levels; HIR rule->action->AST-node table extraction; guard-exactness rule on the driver's packed-table accesses (MIR facts); decision regions of the driver evaluated on representative table values; mode-flag reset rule for the lexer; character-class tables vs grammar rules 61/62; exactness of the binary operators' reduce actions",
+      "Static translation validation of a generated artefact: every (state, look-ahead) action and every goto of the committed tables is compared with an independently constructed LALR(1) automaton of feel.y (all 282 states, ~17k cells, exhaustive), every precedence-resolved conflict is judged against the specification's operator levels, token numbering and the rule->action->AstNode mapping (incl. operand order) are extracted from the type-checked HIR. The driver itself is checked where it decides which table cell is consulted: at all four accesses to the packed tables the dominating comparisons must impose exactly bison's guard 0 <= index <= YY_LAST (a narrower guard silently drops cells); the comparisons that turn a table value into shift / reduce / error / default are evaluated on the representative values (YY_TABLE_N_INF, negative, 0, positive; YY_PACT_N_INF) and must give bison's actions, whatever the arrangement of the tests; every lexer mode flag the parser switches on (between, till_in, type_name, unary_tests) is switched off again, unconditionally or in each branch it selects; is_whitespace / is_vertical_space accept exactly the characters of grammar rules 61/62 (a delegation to char::is_whitespace is not that set); the reduce actions of the binary operators push one node built directly from the two popped nodes (no re-association). This is the right level because the parser's tree shape for every operator pair is decided by exactly these finite tables.",
       "Trusts: rustc's HIR/type check, bison's documented yyparse table semantics as re-implemented in Parser::parse (the rest of the driver loop - default actions, error branch - is not verified), the operator levels written in tables/feel_precedence.json. Not decided: lexing of literals/escapes, white space and comments, same-level comparison chains the specification leaves unordered.",
       "DESIGN.md §3 C06, §2.4 G8")
 
 
 claim("C08", "other",
-      "HIR decision-table extraction of the two 73-arm built-in dispatchers and Bif::from_str; sibling cross-check named vs positional wrapper (core callee sets, argument provenance) against the specification's parameter order; units-of-measure dataflow (UTF-8 bytes vs characters) over the MIR of the string built-ins; slice-end guard exactness; no derived equality on FEEL values; forward search in first-occurrence built-ins",
+      "HIR decision-table extraction of the two 73-arm built-in dispatchers and Bif::from_str; sibling cross-check named vs positional wrapper (core callee sets, argument provenance) against the specification's parameter order; units-of-measure dataflow (UTF-8 bytes vs characters) over the MIR of the string built-ins; slice-end guard exactness; no derived equality on FEEL values; forward search in first-occurrence built-ins; helper expansion so that extract-function refactorings do not hide the wrappers' arguments",
       "Static rule checking over the type-checked HIR: exhaustive dispatch without wildcard, name<->variant bijection, for each of the 73 built-ins the core functions reached by the named wrapper are a subset of those reached by the positional wrapper, optional arguments are nulled alike, and every named parameter lands on the core argument index its positional counterpart uses (specification parameter order as oracle). For the 'positions count Unicode characters' clause a units analysis over bifs::core forbids adding/subtracting a byte offset (str::len, find) and a character count (chars().count()), slicing at a character position and stepping chars() by a byte amount; a range slice guarded by its end must be guarded by `end <= len`; built-ins never compare Value with Rust's derived equality (==, contains, dedup); the first-occurrence built-ins (substring before/after, index of, ...) use forward searches only. Decides the structural clauses only; the values computed by the ~40 core functions are not decided.",
       "Trusts rustc's name resolution (HIR callee paths) and tables/bif_signatures.json (DMN 1.3 parameter names, with the repository-pinned deviation for 'list contains'). Not decided: results of core functions for any argument tuple (positions, Unicode, boundaries).",
       "DESIGN.md §3 C08, §2.4 G6")
 
 
 claim("C09", "other",
-      "symbolic partial evaluation of the type-checked HIR over all operand-kind combinations: table symmetry (transpose), mirror-sibling agreement, Kleene truth tables, between/in-range/unary-test pairing; exhaustive evaluation of the temporal comparison helpers over the finite set of orderings; size-test and number-comparison consistency rules; PartialOrd/PartialEq of the temporal types evaluated against compare()",
-      "Static table extraction: eval_ternary_equality, build_eq/nq/lt/gt/le/ge/and/or/between, eval_in_range and the four eval_in_unary_* are folded over every ordered pair (triple) of Value kinds with symbolic payloads; the equality table is compared with its transpose (all 21x21 cells), `!=` with the negation of `=`, `<`/`>` and `<=`/`>=` cell-by-cell with their mirror, and/or with the three-valued truth tables on a 5-symbol alphabet, between with the closed range, open ends with strict primitives. Dates, times and date-times are compared through one compare() -> Option<Ordering>; equal/before/after/between only look at its answer, so they are decided exhaustively over {Less, Equal, Greater, None} x the two interval flags (84 combinations, symbolic evaluation with compare() abstracted). Equality of two lists/contexts may answer true only after the sizes were compared (symmetry); FeelNumber's `=` and ordering must both go through decQuadCompare(self, rhs); FeelDate::partial_cmp and the eq impls of time / date-time must answer as compare() does (a textual or field-wise shortcut is reported); `!=`/`=` may not produce a result on a path that bypasses eval_ternary_equality. Exhaustive over kinds and orderings, which is exactly the finite part of the property; the primitive comparisons on payloads are outside.",
+      "symbolic partial evaluation of the type-checked HIR over all operand-kind combinations: table symmetry (transpose), mirror-sibling agreement, Kleene truth tables, between/in-range/unary-test pairing; exhaustive evaluation of the temporal comparison helpers over the finite set of orderings; size-test and number-comparison consistency rules; PartialOrd/PartialEq of the temporal types evaluated against compare(); mirror-symmetry of the per-operand computations in compare()/subtract()",
+      "Static table extraction: eval_ternary_equality, build_eq/nq/lt/gt/le/ge/and/or/between, eval_in_range and the four eval_in_unary_* are folded over every ordered pair (triple) of Value kinds with symbolic payloads; the equality table is compared with its transpose (all 21x21 cells), `!=` with the negation of `=`, `<`/`>` and `<=`/`>=` cell-by-cell with their mirror, and/or with the three-valued truth tables on a 5-symbol alphabet, between with the closed range, open ends with strict primitives. Dates, times and date-times are compared through one compare() -> Option<Ordering>; equal/before/after/between only look at its answer, so they are decided exhaustively over {Less, Equal, Greater, None} x the two interval flags (84 combinations, symbolic evaluation with compare() abstracted). Equality of two lists/contexts may answer true only after the sizes were compared (symmetry); FeelNumber's `=` and ordering must both go through decQuadCompare(self, rhs); FeelDate::partial_cmp and the eq impls of time / date-time must answer as compare() does (a textual or field-wise shortcut is reported); `!=`/`=` may not produce a result on a path that bypasses eval_ternary_equality; in compare()/subtract() every intermediate value derived from `other` is the same computation as the one derived from `me` (a crossed copy such as the zone offset of `other` looked up at the date of `me` is reported). Exhaustive over kinds and orderings, which is exactly the finite part of the property; the primitive comparisons on payloads are outside.",
       "Trusts rustc's HIR and the partial evaluator (engine/hireval.py: unknown conditions fork, loops are summarised by their early returns). Assumes PartialOrd/PartialEq of the payload types are coherent; the value-level laws (exactly one of <,=,> on concrete numbers/strings/dates) are not decided.",
       "DESIGN.md §3 C09, §2.4 G6")
 
 
 claim("C16", "other",
-      "HIR structural rules on FeelType::is_equivalent/is_conformant/coerced: match diagonal, provenance (side and component) of recursive calls = variance, loop-invariant-return detection, dominance of conformance tests over coerced's returns; iteration rule for Value::type_of on lists and contexts",
-      "Static rule checking of the three functions that implement the relation: every FeelType variant has its own arm testing self for the same variant, every recursive call relates corresponding components with the variance the specification prescribes (contravariant only in function parameters), no decision inside an element loop is independent of the element (the nullary-function hole), and every non-null result of coerced is dominated by `type_of(value) conforms to target` (plus len()==1 for the unwrap); Value::type_of, which coerced relies on, types a list / context from all of its items / entries. These are the structural premises of the usual inductive preorder argument; the induction itself (transitivity over the infinite type universe) is stated, not mechanised.",
+      "HIR structural rules on FeelType::is_equivalent/is_conformant/coerced: match diagonal, provenance (side and component) of recursive calls = variance, loop-invariant-return detection, dominance of conformance tests over coerced's returns; iteration rule for Value::type_of on lists and contexts; accumulator-overwrite rule for component loops; helper expansion",
+      "Static rule checking of the three functions that implement the relation: every FeelType variant has its own arm testing self for the same variant, every recursive call relates corresponding components with the variance the specification prescribes (contravariant only in function parameters), no decision inside an element loop is independent of the element (the nullary-function hole), and every non-null result of coerced is dominated by `type_of(value) conforms to target` (plus len()==1 for the unwrap); Value::type_of, which coerced relies on, types a list / context from all of its items / entries; a verdict accumulated over components may not be overwritten per iteration; private helpers of the relation are expanded at their call sites. These are the structural premises of the usual inductive preorder argument; the induction itself (transitivity over the infinite type universe) is stated, not mechanised.",
       "Trusts rustc's HIR/type resolution and engine/hirflow.py's provenance tracking. Not decided: transitivity as a semantic law, Value::type_of for the scalar kinds.",
       "DESIGN.md §3 C16")
 
 
 claim("C17", "other",
-      "HIR provenance/path rules over every Workspace method: co-mutation of the three indexes, single-object key provenance (or a dominating lookup-and-compare tie), evaluator invalidation on every mutating path, fall-through of deploy's Err arm; MIR forward dataflow: on every returning path the indexes touched are none or all three",
-      "Static rule checking of the structural conditions under which the list and the two indexes cannot drift apart: each public operation mutates all three together on one path with keys of one Definitions object, clears the evaluator map on every mutating path, deploy clears first and keeps going after a failed build; a forward dataflow over each operation's MIR (callee summaries for self methods) shows that no path returns with only some of the three indexes inserted into / removed from (an early return between the updates). These are necessary conditions of the history property; the set of models left by an arbitrary operation sequence is not computed (that would be model checking).",
+      "HIR provenance/path rules over every Workspace method: co-mutation of the three indexes, single-object key provenance (or a dominating lookup-and-compare tie), evaluator invalidation on every mutating path, fall-through of deploy's Err arm; MIR forward dataflow: on every returning path the indexes touched are none or all three; per-model loop, stored-evaluator and argument-order rules",
+      "Static rule checking of the structural conditions under which the list and the two indexes cannot drift apart: each public operation mutates all three together on one path with keys of one Definitions object, clears the evaluator map on every mutating path, deploy clears first and keeps going after a failed build; a forward dataflow over each operation's MIR (callee summaries for self methods) shows that no path returns with only some of the three indexes inserted into / removed from (an early return between the updates); per-model loops are never left because one model failed; the evaluator map only receives the Ok payload of ModelEvaluator::new; Workspace operations are called with their arguments in parameter order. These are necessary conditions of the history property; the set of models left by an arbitrary operation sequence is not computed (that would be model checking).",
       "Trusts rustc's HIR and engine/hirflow.py (private helpers are inlined into their callers, closures contribute their free variables). Not decided: the history property itself, error texts, ModelEvaluator::new.",
       "DESIGN.md §3 C17")
 
 
 claim("C18", "other",
-      "taint (must-pass-through-escaper) rule over every Jsonify impl reachable from a response and over hand-built bodies; route -> workspace-operation must-reach table over the HIR call graph; lock-result handling lint; writer/reader agreement of the TCK xsd-tag tables; single-shared-state rule for the actix worker factory",
+      "taint (must-pass-through-escaper) rule over every Jsonify impl reachable from a response and over hand-built bodies; route -> workspace-operation must-reach table over the HIR call graph; lock-result handling lint; writer/reader agreement of the TCK xsd-tag tables; single-shared-state rule for the actix worker factory; blocking-lock, all-bodies, DTO text and numeric reader rules; C17's rules as premises",
       "Static rule checking: (1) in Value/Values/FeelContext::jsonify and in the evaluate handler, every piece of text that reaches the JSON output is a constant, a scalar, a jsonify() result or the result of a structurally recognised JSON string escaper (for the kinds the property lists: string, number, boolean, null, list, context and context keys); (2) each of the seven definitions/evaluate routes reaches exactly the Workspace operation it stands for; (3) all other bodies come from serde (Json<..>, ResultDto::to_string); (4) RwLock results are matched, never unwrapped; (5) both Value->DTO writers give a kind the same xsd tag and the DTO->Value reader builds that kind from that tag; (6) the RwLock<Workspace> is created once outside the closure handed to HttpServer::new, so all workers share it. Decides the injection/escaping and endpoint-mapping clauses; value-level TCK round-trips and request-sequence equivalence are not decided.",
       "Trusts rustc's HIR, serde_json/actix for the bodies they build, and the structural escaper recogniser in props/c18.py (a function matching '\"' and '\\' and control characters to escape sequences). FeelNumber::jsonify is audited as numeric text (C07's domain). The no-panic-under-write-lock clause is decided under C12.",
       "DESIGN.md §3 C18")
@@ -81,21 +81,21 @@ claim("C13", "other",
 
 
 claim("C02", "other",
-      "clang-AST facts of the bundled decNumber sources vs IEEE 754-2008 decimal128; Rust<->C agreement of constants, extern prototypes and #[repr(C)] layouts; MIR provenance of every FFI context argument; HIR operator->primitive table; must-pass-through (finite sanitizer) rule on evaluation-reachable number constructors; divisor-non-zero path rule on every FeelNumber division; formula table for formula-defined numeric built-ins (modulo)",
-      "Static rule checking of what the property says can change without touching an asserted value: the context decContextDefault installs for DEC_INIT_DECQUAD is 34 digits / emax 6144 / emin -6143 / half-even / no traps / clamp (clang AST of the switch), the Rust constants, all 32 extern declarations and the three #[repr(C)] layouts agree with the C headers under build.rs's defines (lsu holds 34 digits), each of the 32 FFI context arguments is a fresh clone of the lazily initialised default context and no Rust code writes a context field, each of 20 operators/methods reaches exactly the decNumber primitive the General Decimal Arithmetic specification names with operands in order and the named rounding constant, and every evaluation-reachable FeelNumber constructor fed by a primitive that can produce Infinity/NaN must test dec_is_finite first. Every FeelNumber division reachable from evaluation (6 sites) has a divisor that is compared with zero on the path, is a non-zero constant or the length of a non-empty collection (2 audited: stddev); every number modulo returns is dividend - divisor*floor(dividend/divisor) over its arguments. The sanitizer rule reports 7 genuine defects (Add, AddAssign, Sub, Mul, Div, exp, round), each confirmed with a FEEL expression and listed in known_findings.json; the repair changes operator signatures across the evaluator and is not a small patch.",
+      "clang-AST facts of the bundled decNumber sources vs IEEE 754-2008 decimal128; Rust<->C agreement of constants, extern prototypes and #[repr(C)] layouts; MIR provenance of every FFI context argument; HIR operator->primitive table; must-pass-through (finite sanitizer) rule on evaluation-reachable number constructors; divisor-non-zero path rule on every FeelNumber division; formula and domain table for the numeric built-ins (modulo, abs, floor, ceiling, exp, sqrt, log, odd, even)",
+      "Static rule checking of what the property says can change without touching an asserted value: the context decContextDefault installs for DEC_INIT_DECQUAD is 34 digits / emax 6144 / emin -6143 / half-even / no traps / clamp (clang AST of the switch), the Rust constants, all 32 extern declarations and the three #[repr(C)] layouts agree with the C headers under build.rs's defines (lsu holds 34 digits), each of the 32 FFI context arguments is a fresh clone of the lazily initialised default context and no Rust code writes a context field, each of 20 operators/methods reaches exactly the decNumber primitive the General Decimal Arithmetic specification names with operands in order and the named rounding constant, and every evaluation-reachable FeelNumber constructor fed by a primitive that can produce Infinity/NaN must test dec_is_finite first. Every FeelNumber division reachable from evaluation (6 sites) has a divisor that is compared with zero on the path, is a non-zero constant or the length of a non-empty collection (2 audited: stddev); every result of modulo / abs / floor / ceiling / exp / sqrt / log / odd / even is the specified operation of its argument(s) and is produced under exactly the specified domain test (an extra guard that nulls part of the domain is reported); even/odd use the decimal remainder. The sanitizer rule reports 7 genuine defects (Add, AddAssign, Sub, Mul, Div, exp, round), each confirmed with a FEEL expression and listed in known_findings.json; the repair changes operator signatures across the evaluator and is not a small patch.",
       "Trusts clang's AST, rustc's HIR/MIR/layout computation and the correctness of decNumber's C arithmetic; the 34-digit correctly-rounded results themselves are not decided. Alignment of DecQuad (1) vs decQuad (8) is recorded as a note. fract() is an audited exception (|x - trunc x| < 1).",
       "DESIGN.md §3 C02, §2.4 G9/G7")
 
 
 claim("C03", "other",
-      "HIR decision-table extraction of the hit-policy dispatch and of each evaluation method's (collection order, result shape, default path) compared with a specification table; attribute/marker string tables; MIR flag-provenance rule for rule matching; path-condition rules for ANY's agreement test and the lexicographic priority comparator; sibling agreement of the aggregators' refusal conditions",
-      "Static table extraction: each of the 11 policy/aggregator combinations has its own arm and reaches one method; the helper that filters on `matches` without sorting is the rule-order collection and the one that sorts by position in the output values is the priority collection (classified from their bodies); each method must use the collection, return the shape (first of the collection / list / count / sum / min / max) and the default output on the empty-match path that DMN 8.2.8/8.2.11 prescribe, with the emptiness test dominating every other result; hitPolicy/aggregation attribute strings (XML) and the one-letter markers (text tables) map to the specified variants, defaults included; the rule-match flag is initialised true once and cleared only under a failed is_true() of an input entry inside the loop. ANY's null-on-disagreement compares complete rule results (all output components); the priority comparator leaves its component loop only on a strict difference and ends with Equal (ties resolved by later components); the three aggregating COLLECT methods give up under one and the same condition. Which rules match for given inputs and output values are not decided.",
+      "HIR decision-table extraction of the hit-policy dispatch and of each evaluation method's (collection order, result shape, default path) compared with a specification table; attribute/marker string tables; MIR flag-provenance rule for rule matching; path-condition rules for ANY's agreement test and the lexicographic priority comparator; sibling agreement of the aggregators' refusal conditions; list-shape and accumulator rules",
+      "Static table extraction: each of the 11 policy/aggregator combinations has its own arm and reaches one method; the helper that filters on `matches` without sorting is the rule-order collection and the one that sorts by position in the output values is the priority collection (classified from their bodies); each method must use the collection, return the shape (first of the collection / list / count / sum / min / max) and the default output on the empty-match path that DMN 8.2.8/8.2.11 prescribe, with the emptiness test dominating every other result; hitPolicy/aggregation attribute strings (XML) and the one-letter markers (text tables) map to the specified variants, defaults included; the rule-match flag is initialised true once and cleared only under a failed is_true() of an input entry inside the loop. ANY's null-on-disagreement compares complete rule results (all output components); the priority comparator leaves its component loop only on a strict difference and ends with Equal (ties resolved by later components); the three aggregating COLLECT methods give up under one and the same condition; get_results returns a list on every path; vectors gathered over the clauses of a table are only grown inside their loop, never overwritten. Which rules match for given inputs and output values are not decided.",
       "Trusts rustc's HIR/MIR and tables/hit_policy.json (DMN 1.3 8.2.8, 8.2.11). UNIQUE's conflict check (several matches -> null) is seen as a null result but its condition is not judged. Emptiness tests are recognised in the idioms is_empty / len comparisons / first()-last() / slice patterns.",
       "DESIGN.md §3 C03")
 
 
 claim("C11", "other",
-      "HIR table extraction over the copy-pasted per-type closure families (tag agreement between the dispatch key and every Value::U test / FeelType::U construction reached), classification-table check, must-call (coerced), result-sink and loop-shape rules; the structural rules of the conformance relation (C16) re-evaluated as premises",
+      "HIR table extraction over the copy-pasted per-type closure families (tag agreement between the dispatch key and every Value::U test / FeelType::U construction reached), classification-table check, must-call (coerced), result-sink and loop-shape rules; the structural rules of the conformance relation (C16) re-evaluated as premises; re-built container and typeRef normalisation rules",
       "Static rule checking: every `match` arm keyed by a simple FEEL type (a FeelType::K pattern or its typeRef name) in model-evaluator's builders - 7 families, 56 arms, following the per-type builder function each arm calls and its closure - may only test the value for Value::K and build FeelType::K; each family covers all eight simple kinds; the four defining facts of an item definition map to the ItemDefinitionType the specification gives (all 12 feasible combinations); decision, decision-service and knowledge-model results flow through FeelType::coerced with the declared output type (knowledge models via a function value carrying the result type, coerced at the three invocation sites); every write into the caller's output context by a decision / decision-service evaluator carries the result of coerced(); collection evaluators test for a list, check every item inside the loop and return null from inside the loop for a failing item, simple evaluators apply allowed values on the success path. Decides exactly the copy-slip the property describes; allowed-values semantics and values are not decided.",
       "Trusts rustc's HIR. Kind names are matched between Value and FeelType variants by name (same vocabulary in dmntk_feel); typeRef names are the TCK spellings listed in props/c11.py.",
       "DESIGN.md §3 C11")
